@@ -118,6 +118,63 @@ namespace vsp
         return r;
     }
 
+    // Second (third ...) step with the SAME eroder object: new field, routes updated on the same
+    // graph, optionally K / exponents changed through the setters; fills `r` with the new step.
+    inline std::string next_round(SplCase& sc, SplRun& r, vg::Src& s, vh::Ctx& c)
+    {
+        std::string what;
+        size_t n = sc.fc.m.n;
+        sc.fc.z = vg::gen_field(s, sc.fc.m, nullptr, true);
+        what += " update(z=" + vg::describe_field(sc.fc.z, 0) + ")";
+        auto res = r.b.graph->update_routes(sc.fc.z);
+        r.st = r.b.graph->state();
+        check_wellformed(c, r.st, n);
+        if (sc.elev_mode == 2)
+            sc.other_elev = vg::gen_field(s, sc.fc.m, nullptr, true);
+        r.z = sc.elev_mode == 0 ? res.out : (sc.elev_mode == 1 ? sc.fc.z : sc.other_elev);
+        r.area = sc.area_mode == 0 ? r.b.graph->accumulate(2, {}, 1.0, 0) : sc.gen_area;
+        for (auto& a : r.area)
+            if (a < 0)
+                a = -a;
+        size_t chg = s.weighted({ 120, 50, 40, 46 });
+        if (chg == 1)
+        {
+            // K: scalar <-> array
+            sc.k_is_array = !sc.k_is_array;
+            if (sc.k_is_array)
+            {
+                sc.karr.assign(n, 0.0);
+                for (auto& e : sc.karr)
+                {
+                    uint8_t b = s.u8();
+                    e = b < 16 ? 0.0 : sc.k * (0.1 + 2.0 * static_cast<double>(b) / 255.0);
+                }
+                r.spl->set_k_array(sc.karr);
+            }
+            else
+                r.spl->set_k_scalar(sc.k);
+            what += sc.k_is_array ? " set_k_coef(array)" : " set_k_coef(scalar)";
+        }
+        else if (chg == 2)
+        {
+            static const double ms[] = { 0.5, 0.0, 0.4, 1.0, 2.0 };
+            sc.m = ms[s.u8() % 5];
+            r.spl->set_area_exp(sc.m);
+            what += " set_area_exp(" + vg::fmt(sc.m) + ")";
+        }
+        else if (chg == 3 && !sc.pi.final_multi)
+        {
+            static const double ns[] = { 1.0, 0.5, 0.8, 1.5, 2.0, 3.0 };
+            sc.n = ns[s.u8() % 6];
+            r.spl->set_slope_exp(sc.n);
+            what += " set_slope_exp(" + vg::fmt(sc.n) + ")";
+        }
+        r.kn = sc.k_is_array ? sc.karr : std::vector<double>(n, sc.k);
+        r.e = r.spl->erode(r.z, r.area, sc.dt);
+        r.n_corr = r.spl->n_corr();
+        return what + " erode";
+    }
+
     // lowest post-erosion elevation among the receivers of node i
     inline double floor_of(const SplRun& r, size_t i)
     {
